@@ -7,27 +7,27 @@ from lib import common as C
 from py2v import gen
 
 PROP = "C03"
-PROPS_FILES = ["Props/C03.v", "Props/C03_psd.v", "Props/C03_se_psd.v", "Props/C03_c0_1d_psd.v"]
+PROPS_FILES = ["Props/C03.v", "Props/C03_psd.v", "Props/C03_se_psd.v", "Props/C03_c0_1d_psd.v", "Props/C03_matern_psd.v"]
 ASSUMPTIONS = [
   "real arithmetic (Coq R); float rounding outside the model - the searcher compares every entry with 1e-9 * alpha absolutely AND, wherever phi(r) is a normal double (> 1e-280), "
   "relatively to alpha*phi(r) itself (1e-9 plus the first-order effect of the rounding of the squared distance through the entry point used: pairwise, pdist, or the "
   "|x|^2+|z|^2-2x.z expansion); entries whose closed form underflows (r beyond ~745 for the Matern profiles, ~38 for the square exponential) are compared absolutely only",
   "scipy.spatial.distance pdist 'sqeuclidean' + squareform computes sum_k (u_k - v_k)^2 (translated as that contract)",
-  "positive semi-definiteness of n x n Gram matrices is PROVED for the SquareExponential kernel (all n, all dimensions, all point sets and length scales, the three entry points, with noise; "
-  "exp-series + Schur multipliers, Props/C03_se_psd.v) and for the C0 Matern kernel in dimension 1 (min matrices, Props/C03_c0_1d_psd.v); for C0 in dimension >= 2, C2 and C4 only the 2x2 case is "
-  "proved and larger Gram matrices are decided by the searcher's eigenvalue test (Schoenberg/Bochner: the scale-mixture identity is the missing analysis). Multitask Gram matrices are proved PSD given only "
-  "PSD of the physical Gram matrix (the task kernel is SE), unconditionally when the physical kernel is SE too",
+  "positive semi-definiteness of n x n Gram matrices is PROVED for all four kernels, for all n, dimensions, point sets and length scales, the three entry points, with noise: SquareExponential by the "
+  "exponential series and Schur multipliers (Props/C03_se_psd.v); the Matern kernels C0, C2, C4 as positive scale mixtures of Gaussians - exp(-r), (1+r)exp(-r), (1+r+r^2/3)exp(-r) are the integrals of "
+  "u^k exp(-u^2) exp(-r^2/(4u^2)) over (0, oo), k = 0, 2, 4, up to positive constants, proved from the Gaussian integral by the Cauchy-Schloemilch substitution and two integrations by parts - and closure of Schur "
+  "multipliers under integration (Props/C03_matern_psd.v; Props/C03_c0_1d_psd.v is an independent elementary route in dimension 1). Multitask Gram matrices (physical kernel x SE task kernel, the library's "
+  "default C4 x SE included) are PSD unconditionally. Nothing about positive semi-definiteness is assumed any more; the searcher's eigenvalue test remains as a check of the running code",
   "hyperparameter values enter the model as exact rationals or NaN/inf tags",
 ]
 TRUSTED = ["tools/py2v translator (validated on every run by dual rendering against the vectorised code)", "Model/Hyper.v check function and the harness"]
 LEVEL_TEXT = ("Coq theorems over the definitions regenerated from covariance.py / covariance_base.py / geometry_utils.py / multitask_covariance.py "
               "on every run: documented closed forms alpha*phi(r) for the four kernels, agreement of the pairwise, cross-matrix and symmetric-matrix "
               "entry points (the clamped expansion is the squared distance), noise on the diagonal only, k(x,x)=alpha, symmetry, translation "
-              "invariance, 0<phi<=1 and monotone decrease via the sign of phi', 2x2 positive semi-definiteness for all four kernels and n x n positive semi-definiteness of every "
-              "SquareExponential Gram matrix (with noise; it is even a Schur multiplier: its entrywise product with any PSD matrix is PSD) and of every one-dimensional C0 Gram matrix, multitask = product "
-              "and PSD whenever the physical Gram matrix is; "
+              "invariance, 0<phi<=1 and monotone decrease via the sign of phi', n x n positive semi-definiteness of every Gram matrix of all four kernels (with noise; they are even Schur multipliers: the entrywise "
+              "product with any PSD matrix is PSD - SE by the exponential series, the Matern kernels as positive scale mixtures of Gaussians), multitask = product and PSD unconditionally; "
               "hyperparameter validation/read-back proved on an executable model tied by exact correspondence")
-LEVEL_NOTE = ("PSD of n x n Gram matrices: proved for SE (any dimension) and C0 (dimension 1); Matern C0 (dim >= 2), C2, C4: 2x2 proved, n x n by eigenvalue search; translator and harness trusted; "
+LEVEL_NOTE = ("PSD of n x n Gram matrices proved for all four kernels in every dimension; translator and harness trusted; "
               "axioms: the standard-library real-number axioms (sig_not_dec, sig_forall_dec, functional_extensionality_dep, classic)")
 TECHNIQUE = "Coq/Coquelicot proofs on definitions regenerated from source (translator) + in-Coq correspondence for hyperparameter handling"
 DESIGN_REF = "DESIGN.md section 7, C03"
@@ -467,7 +467,7 @@ def gen_input(rng):
     base = [hp[1 + d] * rng.uniform(-3, 3) for d in range(dim)]
     x = [base] + far_ladder(rng, cls, hp[1:], base, n - 1)
     z = far_ladder(rng, cls, hp[1:], base, m)
-  inp = dict(kind="kernel", cls=cls, hp=hp, x=x, z=z, life=rng.choice(["fresh", "fresh", "reassigned", "inplace", "readmod"]), noise=[rng.choice([0.0, 1e-12, 1e-3, 1.0]) * hp[0] for _ in range(m)],
+  inp = dict(kind="kernel", cls=cls, hp=hp, x=x, z=z, life=rng.choice(["fresh", "fresh", "reassigned", "inplace", "readmod", "buffer_written", "assigned_written"]), noise=[rng.choice([0.0, 1e-12, 1e-3, 1.0]) * hp[0] for _ in range(m)],
              shift=[rng.uniform(-1, 1) * sc for _ in range(dim)])
   if not big and rng.random() < 0.4:
     inp["history"] = gen_history(rng, n, m, newpt, lambda: [10.0 ** rng.uniform(-6, 6)] + [10.0 ** rng.uniform(-3, 3) for _ in range(dim)], dim, [sc] * dim)
